@@ -307,6 +307,25 @@ def r5(R, repo):
   R.check('.reshape([np.prod(x.shape[:2]), *x.shape[2:]])[:b]' in t, key_of(unpad, 'flatten the two leading axes, keep the first b rows'), unpad, 'unpad must merge the (device, per-device) axes and keep exactly the first b rows')
 
 
+@rule('C20.R6', 'K4', 1, 'scan_in_dim: the permutation is inverted entry by entry (valid for negative axes)')
+def r6(R, repo):
+  m2 = repo.mod(JU)
+  f = m2.func('_invert_perm')
+  arg = [x for x in astu.func_calls(f) if astu.call_tail(x) == 'argsort']
+  st = [n for n in astu.body_walk(f.node) if isinstance(n, ast.Assign) and isinstance(n.targets[0], ast.Subscript)]
+  key = key_of(f, 'perm_inv[j] = i for every (i, j)')
+  if arg:
+    R.fail(key, (f, arg[0]), '_invert_perm uses `%s`: scan_in_dim builds the permutation from the user\'s axes, which may be negative, and argsort of a permutation with negative entries is not its inverse '
+           '(the entry-by-entry assignment perm_inv[j] = i is, through negative indexing)' % astu.short(arg[0]))
+  elif len(st) == 1:
+    lp = [n for n in astu.body_walk(f.node) if isinstance(n, ast.For)]
+    ok = len(lp) == 1 and isinstance(lp[0].iter, ast.Call) and astu.call_name(lp[0].iter) == 'enumerate' and isinstance(lp[0].target, ast.Tuple) and \
+        astu.src(st[0].targets[0].slice) == astu.src(lp[0].target.elts[1]) and astu.src(st[0].value) == astu.src(lp[0].target.elts[0])
+    R.judge(len(lp) == 1 and isinstance(lp[0].target, ast.Tuple) and len(lp[0].target.elts) == 2, ok, key, f, '_invert_perm must set perm_inv[j] = i for every (i, j) in enumerate(perm)')
+  else:
+    R.unsure(key, f, '_invert_perm not recognised')
+
+
 def w_items(w):
   return w.items
 
@@ -335,5 +354,6 @@ meta('C20',
                 "  def close(self):\n    cond = self._cond\n    with self._cond:\n      self._active = False\n      self._cond.notify_all()", kind='benign'),
          Mutant('C20-m7', JU, "  enqueue(size)  # Fill up the buffer.\n  while queue:\n    yield queue.popleft()\n    enqueue(1)", "  enqueue(size)  # Fill up the buffer.\n  while queue:\n    enqueue(1)\n    yield queue.popleft()", 'C20.R3',
                 why='still order preserving? no: with size=0 nothing is yielded... kept as structure drift'),
+         Mutant('C20-m10', JU, "  perm_inv = [0] * len(perm)\n  for i, j in enumerate(perm):\n    perm_inv[j] = i\n  return tuple(perm_inv)", "  return tuple(np.argsort(perm))", 'C20.R6', why='seed C20-C (round 2)'),
          Mutant('C20-m9', JU, "      return x.reshape(d, db, *shape)", "      return np.swapaxes(x.reshape(db, d, *shape), 0, 1)", 'C20.R5'),
      ])
